@@ -52,9 +52,10 @@ def fibers_at(spec, depth, level, prefix=()):
     return out
 
 
-def t4c_specs(dims=(2, 2, 2, 2)):
+def t4c_specs(dims=(2, 2, 2, 2), at_most=None, at_least=None):
     """Depth-len(dims) trees holding content only: every subset of the index
-    space, no explicit defaults, no empty sub-fibers.  Fewest points first."""
+    space (optionally only those with <= at_most or >= at_least points), no
+    explicit defaults, no empty sub-fibers.  Fewest points first."""
     pts = list(itertools.product(*[range(n) for n in dims]))
 
     def build(sel, d, prefix):
@@ -67,6 +68,9 @@ def t4c_specs(dims=(2, 2, 2, 2)):
 
     masks = sorted(range(1 << len(pts)), key=lambda m: (bin(m).count("1"), m))
     for m in masks:
+        n = bin(m).count("1")
+        if at_most is not None and n > at_most and (at_least is None or n < at_least):
+            continue
         sel = {p for i, p in enumerate(pts) if m >> i & 1}
         s = build(sel, 0, ())
         if s is None:           # the empty tree: an empty root
